@@ -502,8 +502,29 @@ func (r *request) SetFileParam(name string, files ...runtime.NamedReadCloser) er
 		r.formFields = make(url.Values)
 	}
 
+	// the files set under this name before are replaced: they will never be uploaded, and nobody else
+	// is going to close them
+	for _, old := range r.fileFields[name] {
+		if !containsFile(files, old) {
+			_ = old.Close()
+		}
+	}
 	r.fileFields[name] = files
 	return nil
+}
+
+func containsFile(files []runtime.NamedReadCloser, file runtime.NamedReadCloser) (found bool) {
+	defer func() {
+		if recover() != nil { // values of an uncomparable dynamic type are never the same file
+			found = false
+		}
+	}()
+	for _, f := range files {
+		if f == file {
+			return true
+		}
+	}
+	return false
 }
 
 func (r *request) GetFileParam() map[string][]runtime.NamedReadCloser {
